@@ -308,8 +308,8 @@ def check_weak_and_sinks(ctx, R):
                         kw = next((kk.value for kk in call.keywords if kk.arg == a.id), None)
                         a = call.args[idx] if idx < len(call.args) else kw
                         k -= 1
-                    if isinstance(a, ast.Name) and a.id == 'self' and k == 0:
-                        hit = True
+                    if isinstance(a, ast.Name) and a.id == 'self':
+                        hit = True      # (inside a spliced helper `self` is the node as well: methods, or the self-clone)
             out.append((hit, st.events))
         return out
 
